@@ -1,6 +1,7 @@
 import NmVerif.Proto
 import NmVerif.Index.Broadcast
 import NmVerif.Index.BroadcastExpr
+import NmVerif.Index.BroadcastKinds
 namespace NmVerif.Driver.C06
 open NmVerif NmVerif.Proto
 
@@ -63,6 +64,17 @@ def handle : Handler := fun op a =>
         | [n, e] => (BExpr.parse e).map (fun x => s!" {n}={fmtOptShape (x.eval ss)}")
         | _ => none)
       pure ("ok" ++ String.join parts)
+  | "ksbt" => orBad do
+      let src ← a.nats "src"
+      let dst ← a.nats "dst"
+      match shapeBroadcastTo src dst with
+      | none => pure "ok s=nothing"
+      | some (sh, free) =>
+        -- the None overload stores the target into an array of the LAST clipped type of a clipped target
+        let sh' := match a.get? "ksrc", a.get? "kdst", a.nats "bounds" with
+          | some "none", some "cl", some bounds => sbtNoneClipped bounds sh
+          | _, _, _ => sh
+        pure s!"ok s={fmtNats sh'}/{fmtBools free}"
   | "kbto" => orBad do
       let src ← a.nats "src"
       let dst ← a.nats "dst"
